@@ -24,8 +24,8 @@ MANIFEST = {
     'technique': 'deductive: VCs from the real AST of _split_transitions_events (loop invariant on an arbitrary part, heap alias tracked) and '
                  'Transitions.split, induction lemmas on the bin sequence; z3/cvc5; counter-models replayed natively; random stand-in',
 }
-UNITS = ['unit_split_events', 'unit_bins', 'unit_transitions_split', 'unit_window_lemmas']
-BOUNDED = ['bounded_split', 'bounded_purity']
+UNITS = ['unit_split_events', 'unit_bins', 'unit_transitions_split', 'unit_window_lemmas', 'unit_plumbing']
+BOUNDED = ['bounded_split', 'bounded_purity', 'bounded_plumbing']
 META = {
     'clauses': {'C19.bins': 'P', 'C19.events': 'P', 'C19.states': 'A (array_split) + P (call arguments)', 'C19.parts': 'P',
                 'C19.traj': 'see C15.split', 'C19.jumps': 'known finding C19-empty-part', 'C19.sub': 'P (window lemma, injectivity) + argued counting step + B'},
@@ -542,3 +542,14 @@ from verif.native.purity import make_bounded as _make_purity  # noqa: E402
 from verif.props.purity_reg import REG as _PURITY_REG  # noqa: E402
 PURITY = _PURITY_REG['C19']
 bounded_purity = _make_purity('C19', PURITY)
+
+
+# plumbing around the anchored functions: forwarding contracts of the public wrappers, no state shared between calls or objects
+from verif.props import plumbing as _plumbing  # noqa: E402
+
+
+def unit_plumbing(tier):
+    return _plumbing.unit_plumbing(PROPERTY)
+
+
+bounded_plumbing = _plumbing.make_bounded(PROPERTY)
